@@ -242,9 +242,31 @@ func (e *Eng) runOnce(loopMods map[int]map[string]bool) map[int]map[string]bool 
 		for _, t := range e.fc.Holds {
 			e.hstore(st, "G|holds_"+t, nil, types.Typ[types.Bool], T("true"))
 		}
+		// refinement of interface-method contracts: callers through the interface establish only the
+		// interface contract's precondition, so it must imply this method's own
+		var hyp []T
+		for _, key := range e.fc.Implements {
+			ic := e.w.Contracts[key]
+			if ic == nil {
+				if !e.collect {
+					o := e.addObl("contract", "implements["+key+"]", e.allProps(), "", nil, "no interface contract "+key, false)
+					o.Unsupported = "implements names an unknown interface contract"
+				}
+				continue
+			}
+			for _, c := range ic.Requires {
+				hyp = append(hyp, e.evalSpecArgs(c.SpecFn, e.ifaceArgs(), nil, nil, st, st).(T))
+			}
+		}
 		for _, c := range e.fc.Requires {
 			t := e.evalClause(c, st, st, nil, nil)
+			if len(e.fc.Implements) > 0 {
+				e.oblige(st, "implements.requires", c.Label, propsOf(c, e), tImp(tAnd(hyp...), t), nil, "the interface contract's precondition implies: "+c.Expr)
+			}
 			e.assume(st, t)
+		}
+		for _, h := range hyp {
+			e.assume(st, h)
 		}
 		for _, c := range e.fc.Assumes {
 			t := e.evalClause(c, st, st, nil, nil)
@@ -1025,6 +1047,20 @@ func (e *Eng) finish(fr *Frame) {
 		lab := c.Label
 		e.oblige(st, "ensures", lab, propsOf(c, e), t, nil, "postcondition: "+c.Expr)
 	}
+	for _, key := range e.fc.Implements {
+		ic := e.w.Contracts[key]
+		if ic == nil {
+			continue
+		}
+		for _, c := range ic.Ensures {
+			t := e.evalSpecArgs(c.SpecFn, e.ifaceArgs(), results, nil, st, e.entry).(T)
+			props := strings.Fields(strings.ReplaceAll(c.Property, ",", " "))
+			if len(props) == 0 {
+				props = e.allProps()
+			}
+			e.oblige(st, "ensures", "implements["+key+"]"+labelSuffix(c), props, t, nil, "postcondition of the interface contract: "+c.Expr)
+		}
+	}
 	if e.fc.HasMod {
 		e.frameObligations(st)
 	}
@@ -1520,4 +1556,17 @@ func (e *Eng) immutableObligations(st *State) {
 		}
 		e.oblige(st, "immutable", c.Label, propsOf(c, e), goal, nil, "field "+c.Expr+" is written only while its object is being constructed "+bad)
 	}
+}
+
+
+// ifaceArgs: this method's parameters as seen by a contract written for the interface method: the
+// receiver boxed into an interface value of its dynamic type.
+func (e *Eng) ifaceArgs() []Val {
+	if len(e.params) == 0 || e.fn.Signature.Recv() == nil {
+		return e.params
+	}
+	rt := e.fn.Signature.Recv().Type()
+	iv := &IfaceV{Ty: e.typeTag(rt), Boxed: e.params[0], BoxedT: rt}
+	iv.V = refOf(e.params[0])
+	return append([]Val{iv}, e.params[1:]...)
 }
